@@ -65,6 +65,12 @@ class Run:
         self.level = "model_checking"
         self.known = [k for k in load_known() if k.get("status") == "open" and prop in k.get("property", [])]
         os.makedirs(WORK, exist_ok=True)
+        # replay files of an earlier run of the same check / tier / seed would be mistaken for this run's
+        d = os.path.join(REPLAYS, prop)
+        if os.path.isdir(d):
+            for f in os.listdir(d):
+                if f.startswith("case_%s_%d_" % (tier, seed)):
+                    os.remove(os.path.join(d, f))
 
     def q(self, quick, thorough):
         return quick if self.tier == "quick" else thorough
